@@ -23,7 +23,7 @@ class _Stop(BaseException):
     pass
 
 
-def replay(seq, N):
+def replay(seq, N, mode="ess"):
     """Drive the real sampler through len(seq) warm-up iterations with a scripted -inf pattern."""
     import numpy as np
     from tempest import Sampler
@@ -39,7 +39,14 @@ def replay(seq, N):
             raise _Stop()
         return -np.inf if j >= seq[t] else -0.25 * (i + 1)
 
-    s = Sampler(prior_transform=lambda u: u, log_likelihood=ll, n_dim=1, n_particles=N, ess_ratio=float(T + 5), clustering=False)
+    kw = {}
+    if mode == "vv":
+        kw["volume_variation"] = 0.3
+    if mode == "vector":
+        def llv(X):
+            return np.array([ll(x) for x in X])
+        kw["vectorize"] = True
+    s = Sampler(prior_transform=lambda u: u, log_likelihood=(llv if mode == "vector" else ll), n_dim=1, n_particles=N, ess_ratio=float(T + 5), clustering=False, **kw)
     try:
         s.run(n_total=8, progress=False)
     except _Stop:
@@ -76,8 +83,10 @@ def main():
     # ---- binding B: replay every enumerated sequence
     replayed = 0
     nontriv = 0
-    for seq in seqs:
-        logz, logl = replay(seq, N)
+    modes = ["ess", "vv", "vector"]
+    for si, seq in enumerate(seqs):
+      for mode in (modes if ck.tier == "thorough" else [modes[si % 3], "ess"][: 2 if si % 3 else 1]):
+        logz, logl = replay(seq, N, mode)
         replayed += 1
         if len(logz) != T:
             ck.violation("replay:short", f"only {len(logz)} of {T} warm-up batches committed for a={seq}", {"a": list(seq)})
@@ -101,7 +110,8 @@ def main():
         ck.violation("all-inf-prior-batch", "a prior batch with no finite-likelihood draw is committed with -inf records", {"a": [0, N], "logz": logz})
     # ---- PSRun model + recorded runs
     cov = sysrun.model_part(ck, "C11", variants=["keepinf"], tier=ck.tier)
-    factors = {"support": [1.0, 0.5, 0.375], "ess_ratio": [1.0, 2.0, 3.0, 4.0, 6.0], "n_particles": [16, 32], "evaluation": ["scalar", "vector", "blobs"]}
+    factors = {"support": [1.0, 0.5, 0.375], "ess_ratio": [1.0, 2.0, 3.0, 4.0, 6.0], "n_particles": [16, 32], "evaluation": ["scalar", "vector", "blobs", "vector_reuse"],
+               "metric": [{}, {}, {"volume_variation": 0.5}, {"volume_variation": 0.05}]}
     jobs = sysrun.product_jobs(factors, {"clustering": False}, ck.seed + 11, limit=36 if ck.tier == "quick" else None, n_total=32)
     for j in jobs:
         if j["conf"]["support"] == 1.0:
